@@ -7,6 +7,7 @@ import (
 	"log/slog"
 	"net/http"
 	"net/url"
+	"reflect"
 	"time"
 
 	"github.com/go-jose/go-jose/v4"
@@ -602,6 +603,10 @@ func Userinfo[U SubjectGetter](ctx context.Context, token, tokenType, subject st
 	req.Header.Set("authorization", tokenType+" "+token)
 	if err := httphelper.HttpRequest(rp.HttpClient(), req, &userinfo); err != nil {
 		return nilU, err
+	}
+	// a response body of `null` leaves a pointer typed userinfo nil
+	if v := reflect.ValueOf(userinfo); !v.IsValid() || (v.Kind() == reflect.Pointer && v.IsNil()) {
+		return nilU, ErrUserInfoSubNotMatching
 	}
 	if userinfo.GetSubject() != subject {
 		return nilU, ErrUserInfoSubNotMatching
